@@ -36,13 +36,13 @@ type Failure struct {
 // the scheduler) and returns a signature ("" = fine), a message and an outcome label used to
 // count distinct observed outcomes.
 type Scenario struct {
-	Name    string
-	Bound   int // preemption bound, <0 unbounded
-	MaxExec int // 0 = no cap
-	Body    func()
-	Check   func(o *Outcome) (sig, msg, outcome string)
-	Known   func(sig string) bool // listed open finding: count it, treat as a leaf, keep searching
-	NoCache bool
+	Name     string
+	Bound    int // preemption bound, <0 unbounded
+	MaxExec  int // 0 = no cap
+	Body     func()
+	Check    func(o *Outcome) (sig, msg, outcome string)
+	Known    func(sig string) bool // listed open finding: count it, treat as a leaf, keep searching
+	NoCache  bool
 	Deadline time.Time
 }
 
